@@ -10,6 +10,7 @@ import (
 	"github.com/opencontainers/go-digest"
 
 	"github.com/olareg/olareg/internal/verif/h"
+	"github.com/olareg/olareg/internal/verif/vrt"
 	"github.com/olareg/olareg/types"
 )
 
@@ -72,10 +73,24 @@ func (l *Layout) Write(dir string) {
 	if ol != "" {
 		must(os.WriteFile(filepath.Join(dir, "oci-layout"), []byte(ol), 0o644))
 	}
+	// the files are as old as the (virtual) instant they are written at, not as the real clock says
+	if vrt.IsControlled() {
+		now := vrt.Now()
+		_ = filepath.Walk(dir, func(p string, fi os.FileInfo, err error) error {
+			if err == nil && !fi.IsDir() {
+				_ = os.Chtimes(p, now, now)
+			}
+			return nil
+		})
+	}
 }
 
 func fallbackTag(subjectDigest string) string {
-	return strings.Replace(subjectDigest, ":", "-", 1)
+	t := strings.Replace(subjectDigest, ":", "-", 1)
+	if len(t) > 128 {
+		t = t[:128] // a tag holds at most 128 characters: the digest is truncated (sha512)
+	}
+	return t
 }
 
 func tagAnn(t string) map[string]string { return map[string]string{types.AnnotRefName: t} }
